@@ -23,6 +23,9 @@ func runC03(c *core.Ctx) {
 	h.isLogEntrySummaries("C03.4b isLogEntry")
 	c.Clause("C03.5 on restart the FSM is restored from the snapshot before its index is adopted")
 	h.servePrologue("C03.5 serve-prologue")
+	h.installSnapshotHandler("C03.6 install-handler")
+	c.Clause("C03.7 the leader's queue of client entries is emptied when leadership is released (no entry of an earlier leadership is ever handed to the state machine)")
+	h.releaseEmptiesHolders("C03.7 release-empties-queue")
 }
 
 func runC07(c *core.Ctx) {
@@ -39,4 +42,5 @@ func runC07(c *core.Ctx) {
 	h.dequeueOnlyCommitted("C07.4a dequeue")
 	h.applyRequestsEndAtCommit("C07.4b apply-view")
 	h.singleApplier("C07.4c single-applier")
+	h.releaseEmptiesHolders("C07.5 release-empties-queue")
 }
